@@ -3,7 +3,7 @@
 
 use std::collections::BTreeMap;
 
-use rspack_sources::{BoxSource, Source};
+use rspack_sources::BoxSource;
 use serde::{Deserialize, Serialize};
 
 use crate::{
@@ -125,11 +125,25 @@ pub fn run_concurrent(
   replay: Option<Vec<(u64, usize)>>,
   flags: &RunFlags,
 ) -> Outcome {
-  sched::set_quiet(true);
-  let _ = sched::take_unsafe_fails();
   let objs = build_objects(scn, knobs.shards);
   let refs: Vec<&crate::exec::Dyn> = objs.iter().map(|o| o.as_ref()).collect();
-  let n = scn.threads.len();
+  let out = run_concurrent_on(&refs, &scn.threads, knobs, replay, flags);
+  drop(refs);
+  drop(objs);
+  out
+}
+
+/// Run `threads` of ops as simulated threads over already built objects.
+pub fn run_concurrent_on(
+  refs: &[&crate::exec::Dyn],
+  threads: &[Vec<Op>],
+  knobs: &Knobs,
+  replay: Option<Vec<(u64, usize)>>,
+  flags: &RunFlags,
+) -> Outcome {
+  sched::set_quiet(true);
+  let _ = sched::take_unsafe_fails();
+  let n = threads.len();
   let sim = Sim::new(
     n,
     &knobs.policy,
@@ -139,19 +153,17 @@ pub fn run_concurrent(
     flags.keep_trace,
     flags.fatal_events,
   );
-  let mut answers: Vec<Vec<Answer>> = scn
-    .threads
+  let mut answers: Vec<Vec<Answer>> = threads
     .iter()
     .map(|t| vec![Answer::NotRun; t.len()])
     .collect();
   let fails = std::sync::Mutex::new(Vec::<String>::new());
   {
-    let refs = &refs;
     let fails = &fails;
     let sim_ref = &sim;
     let bodies: Vec<Box<dyn FnOnce(usize) + Send + '_>> = answers
       .iter_mut()
-      .zip(scn.threads.iter())
+      .zip(threads.iter())
       .map(|(slot, ops)| {
         let cb_points = knobs.cb_points;
         let consume = flags.consume;
@@ -186,14 +198,12 @@ pub fn run_concurrent(
   }
   let stats = sim.stats();
   let tail = if flags.do_tail && stats.abort.is_none() {
-    tail_pass(&refs, flags.consume)
+    tail_pass(refs, flags.consume)
   } else {
     vec![]
   };
   let mut unsafe_fails = fails.into_inner().unwrap();
   unsafe_fails.extend(sched::take_unsafe_fails().iter().map(|s| s.to_string()));
-  drop(refs);
-  drop(objs);
   sched::flush_unsafe_hits();
   Outcome {
     answers,
@@ -344,7 +354,9 @@ pub fn columns_of(kind: &OpKind) -> bool {
   }
 }
 
-pub fn key_of(ans: &Answer, kind: &OpKind, text: &str, attribution: bool) -> Key {
+/// `positions = false` (trees with multi-byte or binary content, where byte,
+/// char and UTF-16 columns differ) also drops the generated-end information.
+pub fn key_of(ans: &Answer, kind: &OpKind, text: &str, attribution: bool, positions: bool) -> Key {
   let columns = columns_of(kind);
   match ans {
     Answer::Text(t) => Key::Text(t.clone()),
@@ -352,11 +364,15 @@ pub fn key_of(ans: &Answer, kind: &OpKind, text: &str, attribution: bool) -> Key
     Answer::Size(n) => Key::Size(*n),
     Answer::Hash(h) => Key::Hash(*h),
     Answer::Bool(b) => Key::Bool(*b),
+    // nothing about a map is comparable when columns have no agreed unit
+    Answer::Map(_) if !positions => Key::Map(None),
     Answer::Map(None) => Key::MapNone,
+    // a map without a single mapped segment attributes nothing: same as no map
+    Answer::Map(Some(m)) if m.segs.iter().all(|s| s.attr.is_none()) => Key::MapNone,
     Answer::Map(Some(m)) => Key::Map(attribution.then(|| canon(text, &m.segs, columns))),
     Answer::Stream(s) => Key::Stream {
       text: s.text.clone(),
-      end: s.end,
+      end: if positions { s.end } else { (0, 0) },
       canon: attribution.then(|| canon(&s.text, &s.segs, columns)),
     },
     Answer::Aborted { .. } => Key::Aborted,
